@@ -13,5 +13,9 @@ Extraction "model.ml"
   (* Raft *) Raft.init_default Raft.step Raft.run Raft.election_safety_b Raft.committed_agree_b
              Raft.leader_completeness_b Raft.double_vote_b Raft.stale_vote_b Raft.ack_diverged_b
              Raft.old_term_commit_b Raft.ack_below_vote_b Raft.all_synced_b Raft.drain
+  (* ExecSched *) ExecM.run
+  (* ValueIndex *) store_db_value load_db_value store_kv load_kv remove_value remove_kv fresh_ix lookup
+                   is_value vi_index vi_type vi_size wf_value utf8_lossy
+  (* OpenFile *) open_file value_as_bytes table_get alloc_limit og_fixed og_pinned
   (* ConcRead *) conc_init conc_step conc_pc conc_lock conc_result file_read
   (* DeriveType *) to_values from_element db_keys select_pairs upsert_pairs.
